@@ -52,7 +52,8 @@ SCOPE = "Structural clauses only: bounds, prior / likelihood bookkeeping, pool s
 ASSUMPTIONS = [
     "the flow returns arbitrary points with arbitrary finite, NaN or -inf densities (uninterpreted); the reparameterisation is the identity with zero log-Jacobian (its own correctness is C07)",
     "the model prior is finite or -inf and a function of the point; np.random.rand returns values in [0,1)",
-    "the latent draw is an arbitrary array (the radial truncation of the latent samplers is not decided here)",
+    "in the population units the latent draw is an arbitrary array; the radial truncation is decided separately by the latent_radius / latent_prep units",
+    "augmented proposal: scipy's norm.logpdf of the augment parameter is -x^2/2 - log(sqrt(2 pi))",
 ]
 OUTSIDE = ["latent dimensions other than 2 for the radial samplers", "that the pool is distributed as the prior restricted to the contour (distributional)", "termination of the population loop (paths needing more iterations than the bound are counted as out-of-bound)",
            "marginalise_augment=True of the augmented proposal (Monte-Carlo marginalisation through the flow); the gravitational-wave and clustering proposals only change configuration / training and inherit the population code checked here", "the distribution of the radial latent samplers (only the radius bound is decided, relative to: chi ppf/cdf inverse and monotone, gammaincinv(d/2, chi.cdf(y)) = y^2/2)"]
